@@ -67,7 +67,8 @@ pub fn elem(ty: Ty, tier: Tier, size: u8) -> BoxedStrategy<Val> {
         RK::F(_) => base.clone(),
         RK::Quad(_) => prop_oneof![2 => base.clone(), 5 => (base.clone(), base.clone()).prop_map(|(a, b)| Val::Pair(Box::new(a), Box::new(b)))].boxed(),
         RK::PQ | RK::PF(_) => {
-            let c = int_val(Some(3), tier);
+            // polynomial rings over Q / F_p: small coefficients only (the coefficient growth of Q[x] elimination is not the subject here)
+            let c = prop_oneof![2 => Just(Val::Zero), 2 => Just(Val::One), 6 => (-9i64..=9).prop_map(Val::Small)];
             prop::collection::vec(c, 0..(2 + size as usize)).prop_map(Val::Poly).boxed()
         }
         _ => base,
